@@ -34,7 +34,7 @@ func isLoggingCall(e ast.Expr) bool {
 		if inner, ok := sel.X.(*ast.SelectorExpr); ok && inner.Sel.Name == "logger" {
 			return true
 		}
-		if id, ok := sel.X.(*ast.Ident); ok && (id.Name == "logger" || id.Name == "p") && sel.Sel.Name == "Log" {
+		if id, ok := sel.X.(*ast.Ident); ok && id.Name == "logger" && sel.Sel.Name == "Log" {
 			return true
 		}
 	case "Println", "Printf":
@@ -64,7 +64,11 @@ func normaliseBlock(b *ast.BlockStmt) {
 		if is, ok := s.(*ast.IfStmt); ok {
 			if call, ok := is.Cond.(*ast.CallExpr); ok {
 				if sel, ok := call.Fun.(*ast.SelectorExpr); ok && sel.Sel.Name == "IsDebug" {
-					continue
+					// ... unless they also run code of the package itself (packet.Log, the pretty-printer)
+					normaliseBlock(is.Body)
+					if len(is.Body.List) == 0 {
+						continue
+					}
 				}
 			}
 			// `if v, ok := interface{}(t).(HelperT); ok { v.Helper() }`
